@@ -1317,6 +1317,12 @@ impl<B> StreamRef<B> {
         let mut send_buffer = self.send_buffer.inner.lock().unwrap();
         let send_buffer = &mut *send_buffer;
 
+        // PUSH_PROMISE may only be sent while our half of the initiating
+        // stream is open. This also rejects pushes after a connection error.
+        if me.store.resolve(self.opaque.key).state.is_send_closed() {
+            return Err(UserError::InactiveStreamId);
+        }
+
         let actions = &mut me.actions;
         let promised_id = actions.send.reserve_local()?;
 
